@@ -73,9 +73,10 @@ UnsetArgs == { UA("Lax", "", ""), UA("Strict", "example.com", "/p") }
 
 Call(op, n, v, items, asdict, ty, link, text, ck, ca, ua) ==
     [op |-> op, n |-> n, v |-> v, items |-> items, asdict |-> asdict, p |-> ty.p, a |-> ty.a, link |-> link,
-     text |-> text, ck |-> ck, ca |-> ca, ua |-> ua]
+     text |-> text, ck |-> ck, ca |-> ca, ua |-> ua, flag |-> FALSE]
 NoT == T("", TNone)
 C0(op)            == Call(op, NoName, "", <<>>, FALSE, NoT, NoLink, "", "", NoCA, NoUA)
+CO(b)             == [C0("set_option") EXCEPT !.flag = b]
 CN(op, n, v)      == Call(op, n, v, <<>>, FALSE, NoT, NoLink, "", "", NoCA, NoUA)
 CB(items, asdict) == Call("set_headers", NoName, "", items, asdict, NoT, NoLink, "", "", NoCA, NoUA)
 CT(op, ty)        == Call(op, NoName, "", <<>>, FALSE, ty, NoLink, "", "", NoCA, NoUA)
@@ -103,14 +104,15 @@ XSetCookie  == (\E k \in CookieNames, a \in CookieArgs : SetCookie(k, a)) /\ Tic
 XUnsetCookie == (\E k \in CookieNames, u \in UnsetArgs : UnsetCookie(k, u)) /\ Tick
 XEmitWsgi   == EmitWsgi /\ Tick
 XEmitAsgi   == EmitAsgi /\ Tick
+XSetOption  == (\E b \in BOOLEAN : SetSecureDefault(b)) /\ Tick
 XNext == XGet \/ XSet \/ XDelete \/ XAppend \/ XSetHeaders \/ XSetTyped \/ XGetTyped \/ XAppendLink
-         \/ XSetCookie \/ XUnsetCookie \/ XEmitWsgi \/ XEmitAsgi
+         \/ XSetCookie \/ XUnsetCookie \/ XEmitWsgi \/ XEmitAsgi \/ XSetOption
 XReadBackIsMap == ReadBackIsMap(Names)
 XSetCookieUntouched == [][(last'.sc /\ last'.op \in {"get", "set", "delete", "set_headers"}) => UNCHANGED stores]_<<vars, h>>
 
 (* ---- behaviour export ------------------------------------------------------------------------ *)
 Log(call) == Len(h) < Depth /\ h' = Append(h, [call |-> call, err |-> last'.err, res |-> last'.res, map |-> MapView(model')])
-AInit == Init /\ h = <<>>
+AInit == Init /\ sd = TRUE /\ h = <<>>       \* falcon's default; ASetOption changes it
 (* the filter mentions h so that the draw is a state-level expression: TLC evaluates constant-level
    expressions once, which would freeze every draw for the whole run *)
 Pick(S) == IF Randomized THEN {RandomElement({x \in S : Len(h) >= 0})} ELSE S
@@ -124,8 +126,9 @@ AGetTyped   == \E t \in Pick(SimTypeds) : GetTyped(t.p) /\ Log(CT("typed_get", T
 AAppendLink == \E l \in Pick(SimLinks) : AppendLink(LinkSafe(l)) /\ Log(CL(l))
 ASetCookie  == \E k \in Pick(SimCookieNames), a \in Pick(SimCookieArgs) : SetCookie(k, a) /\ Log(CC(k, a))
 AUnsetCookie == \E k \in Pick(SimCookieNames), u \in Pick(UnsetArgs) : UnsetCookie(k, u) /\ Log(CU(k, u))
+ASetOption  == \E b \in Pick(BOOLEAN) : SetSecureDefault(b) /\ Log(CO(b))
 ANext == AGet \/ ASet \/ ADelete \/ AAppend \/ ASetHeaders \/ ASetTyped \/ AGetTyped \/ AAppendLink
-         \/ ASetCookie \/ AUnsetCookie
+         \/ ASetCookie \/ AUnsetCookie \/ ASetOption
 (* exhaustive small-scope export (BFS, MC_RespHeadersLink.cfg): EVERY history of Depth calls that touch the Link header,
    through the plain-header calls in two casings and through append_link - e.g. append_link / set_header('Link') /
    append_link.  Each is replayed on the real objects. *)
@@ -138,7 +141,7 @@ LAppend     == \E n \in LinkNames : AppendHeader(n, "v2") /\ Log(CN("append", n,
 LAppendLink == \E l \in Links : AppendLink(LinkSafe(l)) /\ Log(CL(l))
 LNext == LGet \/ LSet \/ LDelete \/ LAppend \/ LAppendLink
 Emit == (Len(h) = Depth) =>
-        PrintT(ToJson([sd |-> sd, ev |-> h, plain |-> EmitView(model), raw |-> raw, jar |-> JarView(jar)]))
+        PrintT(ToJson([sd |-> TRUE, ev |-> h, plain |-> EmitView(model), raw |-> raw, jar |-> JarView(jar)]))
 
 (* ---- encoding law: decision table ------------------------------------------------------------- *)
 (* A case is (helper, original string as code points); the law says: the emitted header is pure
